@@ -57,6 +57,8 @@ fn ops_class(tr: &Trace) -> String {
 /// What the model expects where an amount (possibly multi-commodity) is accepted: `eval`.
 enum Want {
     Value(BTreeMap<String, Q>),
+    /// rejection is fine, but if a value is produced it must be this one
+    MayValue(BTreeMap<String, Q>),
     MustError(&'static str),
     Unspecified,
 }
@@ -79,7 +81,9 @@ fn want_posting_amount(v: &Verdict) -> Want {
             if nonzero >= 2 {
                 Want::MustError("multi-commodity-sum-as-single-amount")
             } else if m.len() >= 2 {
-                Want::Unspecified // e.g. 1 USD + 1 EUR - 1 EUR: one non-zero commodity next to a zero one
+                // e.g. 1 USD + 1 EUR - 1 EUR: one non-zero commodity next to a zero one. Whether
+                // that counts as a single amount is not stated; its value, if accepted, is.
+                Want::MayValue(m)
             } else {
                 Want::Value(m)
             }
@@ -189,6 +193,7 @@ impl C08 {
                     }
                     _ => Want::Unspecified, // zero, negative or empty price: not this property's business
                 },
+                Want::MayValue(_) => Want::Unspecified,
                 w => w,
             };
             if let Some(o) = run_ledger(rec, if total { "cost-total" } else { "cost-rate" }, &ledger) {
@@ -297,6 +302,20 @@ impl C08 {
             (Want::Unspecified, _) => {
                 rec.count(&format!("{}:unspecified", context));
                 true
+            }
+            (Want::MayValue(_), Err(_)) => {
+                rec.count(&format!("{}:optional-rejected", context));
+                true
+            }
+            (Want::MayValue(m), Ok(g)) => {
+                if value_matches(g, m, inexact) {
+                    rec.count(&format!("{}:optional-value-agrees", context));
+                    true
+                } else {
+                    let w: Multi = m.iter().filter(|(_, q)| !q.is_zero()).map(|(c, q)| (c.clone(), *q)).collect();
+                    rec.violation("value-differs", &format!("{}|zero-valued-commodity-alongside|{}", context, cls), &format!("{}: evaluated to {}, ordinary arithmetic gives {}", context, multi_to_string(g), multi_to_string(&w)), wit(multi_to_string(g)));
+                    false
+                }
             }
             (Want::Value(m), Ok(g)) => {
                 if value_matches(g, m, inexact) {
